@@ -1,6 +1,7 @@
 import MoqModel.GenLemmas
 import MoqModel.ResolveShallow
 import MoqModel.ResolveFrame
+import MoqModel.ImportExact
 import MoqModel.Preds
 import MoqModel.SortLemmas
 /-
@@ -230,5 +231,21 @@ theorem c11_qualifier_valid (o : Ord) (fuel : Nat) (inp : Input) (a : Alloc) (h 
     · rw [e]; exact hsrc p hp (by rw [← e]; exact hne)
     · rw [e]; exact huniq p hp l (by rw [← e]; exact hne)
   · exact hname p hp
+
+end Moq
+
+namespace Moq
+
+/-- **… and nothing else**: in every run every path of the import block is the vendor-stripped path
+    of a package that a method signature or a type-parameter constraint of a *requested* interface
+    mentions, or `sync`, or the source package (for the self-check line).  Nothing is imported on
+    behalf of interfaces that were not asked for, of earlier runs, or of nothing at all.  (With
+    `c11_once_not_self`: each such path once, never the destination; with `c01_references`: every
+    package a printed type refers to is there.) -/
+theorem c11_nothing_else (o : Ord) (fuel : Nat) (inp : Input) (a : Alloc) (h : genAlloc o fuel inp = .ok a) :
+    ∀ c ∈ a.reg.imports,
+      (∃ np ∈ inp.args, ∃ p ∈ requestedPkgs inp.scope np, c.path = stripVendorPath p.path) ∨
+      c.path = stripVendorPath s%"sync" ∨ c.path = stripVendorPath inp.srcPath :=
+  genAlloc_imports_requested o fuel inp a h
 
 end Moq
